@@ -21,7 +21,7 @@ FAMS = gen.ALL_FAMILIES + ("exp_wall", "badly_scaled", "rosenbrock", "oscillatin
 
 def floors(tier):
     return {"runs": 800, "sequence_points": 4000, "line_searches": 3000, "line_searches_without_convergence": 300,
-            "runs_budget_inside_search": 50, "restart_runs": 60, "__nontrivial__": 200}
+            "runs_budget_inside_search": 50, "restart_runs": 60, "runs_with_user_step_cap": 100, "__nontrivial__": 200}
 
 
 def cases(tier, seed):
@@ -41,6 +41,8 @@ def cases(tier, seed):
             "gtol": 1e-9,
             "cb": "never",
         }
+        if i % 4 == 1:
+            cfg["max_steplength"] = float(gen.pick(rng, [0.05, 0.1, 0.2, 0.5, 1.0, 2.0]))  # the user's cap on the step length
         yield {"problem": ps, "cfg": cfg}
     # restarts combined with a gradient scaler (the checkpoint documentation names "some scaling must be performed before
     # starting L-BFGS-B" as a use of restarts)
@@ -155,6 +157,8 @@ def run(spec):
         tr = probes.run_min(P, cfg)
     tags = dict(family=P.spec["family"], mode=str(cfg["jac"]))
     out.count("runs")
+    if spec["cfg"].get("max_steplength") is not None:
+        out.count("runs_with_user_step_cap")
     if tr.exc is not None:
         out.count("runs_raised")
         out.count("raised:" + type(tr.exc).__name__)
